@@ -40,6 +40,7 @@ import (
 
 	"github.com/KafScale/platform/pkg/metadata"
 	"github.com/KafScale/platform/pkg/protocol"
+	"github.com/KafScale/platform/pkg/storage"
 )
 
 const (
@@ -77,6 +78,8 @@ type c05tStep struct {
 	N    int    `json:"n,omitempty"`    // records of the produced batch
 	Off  int64  `json:"off,omitempty"`  // fetch offset
 	Hold int    `json:"hold,omitempty"` // >0: the request's first UpdateOffsets is held for this many further steps
+	Tx   int    `json:"tx,omitempty"`   // >0: like hold, but the write is held between the read and the transaction inside the store's UpdateOffsets
+	Ls   int    `json:"ls,omitempty"`   // >0: the S3 listing of the partition open this request triggers is stalled for this many further steps
 	Up   int    `json:"up,omitempty"`   // >0: the request's first segment upload is stalled (lands late) for this many further steps
 }
 
@@ -88,6 +91,12 @@ func (s c05tStep) String() string {
 	}
 	if s.Up > 0 {
 		h = fmt.Sprintf(" stall-segment-upload=%d", s.Up)
+	}
+	if s.Ls > 0 {
+		h = fmt.Sprintf(" stall-s3-listing=%d", s.Ls)
+	}
+	if s.Tx > 0 {
+		h = fmt.Sprintf(" hold-end-offset-txn=%d", s.Tx)
 	}
 	switch s.Op {
 	case "produce":
@@ -148,17 +157,82 @@ func (g *c05tGate) Available() bool {
 	return true
 }
 
-// c05tS3 is one broker's S3 client: it can stall (never alter) the next segment upload and notes
-// whether the broker held the partition lease when an upload went out.
-type c05tS3 struct {
-	*vfS3
-	w       *c05tWorld
-	h       *handler
-	id      int32
+// c05tKV wraps the etcd KV of one broker's store client: the next transaction that writes a
+// next_offset key can be held at Commit (after the store has read the key), never altered.
+type c05tKV struct {
+	clientv3.KV
 	mu      sync.Mutex
 	armed   bool
 	parked  chan c05tHeld
 	release chan struct{}
+}
+
+func (k *c05tKV) arm() (chan c05tHeld, chan struct{}) {
+	k.mu.Lock()
+	defer k.mu.Unlock()
+	k.armed = true
+	k.parked = make(chan c05tHeld, 1)
+	k.release = make(chan struct{})
+	return k.parked, k.release
+}
+
+func (k *c05tKV) disarm() { k.mu.Lock(); k.armed = false; k.mu.Unlock() }
+
+func (k *c05tKV) Txn(ctx context.Context) clientv3.Txn {
+	return &c05tTxn{Txn: k.KV.Txn(ctx), k: k, p: -1}
+}
+
+type c05tTxn struct {
+	clientv3.Txn
+	k *c05tKV
+	p int32
+}
+
+func (t *c05tTxn) If(cs ...clientv3.Cmp) clientv3.Txn { t.Txn = t.Txn.If(cs...); return t }
+func (t *c05tTxn) Then(ops ...clientv3.Op) clientv3.Txn {
+	for _, op := range ops {
+		key := string(op.KeyBytes())
+		if op.IsPut() && strings.HasSuffix(key, "/next_offset") {
+			f := strings.Split(key, "/")
+			if len(f) >= 2 {
+				if n, err := strconv.Atoi(f[len(f)-2]); err == nil {
+					t.p = int32(n)
+				}
+			}
+		}
+	}
+	t.Txn = t.Txn.Then(ops...)
+	return t
+}
+func (t *c05tTxn) Else(ops ...clientv3.Op) clientv3.Txn { t.Txn = t.Txn.Else(ops...); return t }
+func (t *c05tTxn) Commit() (*clientv3.TxnResponse, error) {
+	if t.p >= 0 {
+		t.k.mu.Lock()
+		if t.k.armed {
+			t.k.armed = false
+			pc, rc := t.k.parked, t.k.release
+			t.k.mu.Unlock()
+			pc <- c05tHeld{P: t.p, Last: -2}
+			<-rc
+		} else {
+			t.k.mu.Unlock()
+		}
+	}
+	return t.Txn.Commit()
+}
+
+// c05tS3 is one broker's S3 client: it can stall (never alter) the next segment upload and notes
+// whether the broker held the partition lease when an upload went out.
+type c05tS3 struct {
+	*vfS3
+	w         *c05tWorld
+	h         *handler
+	id        int32
+	mu        sync.Mutex
+	armed     bool
+	armedList bool
+	parked    chan c05tHeld
+	release   chan struct{}
 }
 
 func (g *c05tS3) arm() (chan c05tHeld, chan struct{}) {
@@ -170,7 +244,35 @@ func (g *c05tS3) arm() (chan c05tHeld, chan struct{}) {
 	return g.parked, g.release
 }
 
-func (g *c05tS3) disarm() { g.mu.Lock(); g.armed = false; g.mu.Unlock() }
+func (g *c05tS3) disarm() { g.mu.Lock(); g.armed, g.armedList = false, false; g.mu.Unlock() }
+
+func (g *c05tS3) armList() (chan c05tHeld, chan struct{}) {
+	g.mu.Lock()
+	defer g.mu.Unlock()
+	g.armedList = true
+	g.parked = make(chan c05tHeld, 1)
+	g.release = make(chan struct{})
+	return g.parked, g.release
+}
+
+// ListSegments: the listing of RestoreFromS3 (a partition open) can be stalled: S3 answers
+// with the listing as of the moment of the call, the answer reaches the broker late.
+func (g *c05tS3) ListSegments(ctx context.Context, prefix string) ([]storage.S3Object, error) {
+	part, ok := c19PartOfKey(prefix + "x")
+	objs, err := g.vfS3.ListSegments(ctx, prefix)
+	g.mu.Lock()
+	if g.armedList && ok {
+		// the listing is taken now, its answer arrives late
+		g.armedList = false
+		pc, rc := g.parked, g.release
+		g.mu.Unlock()
+		pc <- c05tHeld{P: part.P, Last: -1}
+		<-rc
+	} else {
+		g.mu.Unlock()
+	}
+	return objs, err
+}
 
 func (g *c05tS3) UploadSegment(ctx context.Context, key string, body []byte) error {
 	part, ok := c19PartOfKey(key)
@@ -211,6 +313,7 @@ type c05tParked struct {
 	Until     int  // released before the step with this index
 	Held      c05tHeld
 	Upload    bool // the stalled call is the segment upload
+	List      bool // the stalled call is the S3 listing of a partition open
 	OpenSync  bool // the held write is the "sync from S3" of getPartitionLog (the broker had no log for the partition)
 	done      chan c05tResult
 	release   chan struct{}
@@ -223,6 +326,7 @@ type c05tBroker struct {
 	store  *metadata.EtcdStore
 	gate   *c05tGate
 	s3     *c05tS3
+	kv     *c05tKV
 	h      *handler
 	down   bool // ReleaseAll was called (graceful shutdown); a new process is started on next use
 	parked *c05tParked
@@ -321,6 +425,11 @@ func (w *c05tWorld) newProcess(id int32) (*metadata.EtcdStore, *c05tGate, *handl
 		_ = store.Close()
 		return nil, nil, nil, fmt.Errorf("newHandler did not create a partition lease manager over an EtcdStore")
 	}
+	if cli := store.EtcdClient(); cli != nil {
+		if _, ok := cli.KV.(*c05tKV); !ok {
+			cli.KV = &c05tKV{KV: cli.KV}
+		}
+	}
 	gate := &c05tGate{Store: store}
 	h.store = gate
 	h.s3 = &c05tS3{vfS3: &vfS3{o: w.obj}, w: w, h: h, id: id}
@@ -332,7 +441,7 @@ func (w *c05tWorld) start(i int) error {
 	if err != nil {
 		return err
 	}
-	w.b[i] = &c05tBroker{idx: i, id: int32(i + 1), store: store, gate: gate, s3: h.s3.(*c05tS3), h: h, stale: map[int32]bool{}}
+	w.b[i] = &c05tBroker{idx: i, id: int32(i + 1), store: store, gate: gate, s3: h.s3.(*c05tS3), kv: store.EtcdClient().KV.(*c05tKV), h: h, stale: map[int32]bool{}}
 	return nil
 }
 
@@ -601,7 +710,9 @@ func (w *c05tWorld) releaseHold(b *c05tBroker, why string) {
 		w.harnessErr = fmt.Errorf("%w: request %s did not finish after its held write was released", errC19Inconclusive, pk.Step)
 		return
 	}
-	if pk.Upload {
+	if pk.List {
+		w.trace = append(w.trace, fmt.Sprintf("[b%d's stalled S3 listing (open of p%d) goes on: %s]", b.id, pk.Held.P, why))
+	} else if pk.Upload {
 		w.trace = append(w.trace, fmt.Sprintf("[b%d's stalled segment upload (p%d) lands: %s]", b.id, pk.Held.P, why))
 	} else {
 		w.trace = append(w.trace, fmt.Sprintf("[b%d's held UpdateOffsets(p%d,last=%d) lands: %s]", b.id, pk.Held.P, pk.Held.Last, why))
@@ -799,7 +910,12 @@ func (w *c05tWorld) run(steps []c05tStep) {
 				w.cfg.Class("produce-reacquires-while-own-upload-is-stalled")
 			}
 		}
-		if b.parked != nil && (b.parked.Held.P == s.P || b.parked.Step.P == s.P) && !reopenRace {
+		joinOpen := b.parked != nil && b.parked.List && b.parked.Step.P == s.P && s.Op == "produce"
+		if joinOpen {
+			// the produce acquires the lease and then waits for the partition open that is in flight
+			w.cfg.Class("produce-joins-an-open-whose-listing-is-stalled")
+		}
+		if b.parked != nil && (b.parked.Held.P == s.P || b.parked.Step.P == s.P) && !reopenRace && !joinOpen {
 			w.releaseHold(b, "the broker's next request on the partition would wait for it")
 			if w.harnessErr != nil || w.violated() {
 				break
@@ -819,7 +935,19 @@ func (w *c05tWorld) run(steps []c05tStep) {
 			}
 		}
 		if b.parked != nil {
-			s.Hold, s.Up = 0, 0 // one held call per broker
+			s.Hold, s.Up, s.Ls = 0, 0, 0 // one held call per broker
+		}
+		if b.parked != nil {
+			s.Tx = 0
+		}
+		if s.Ls > 0 {
+			s.Hold, s.Up, s.Tx = 0, 0, 0
+		}
+		if s.Up > 0 {
+			s.Tx = 0
+		}
+		if s.Tx > 0 {
+			s.Hold = 0
 		}
 		if s.Op != "produce" {
 			s.Up = 0
@@ -858,7 +986,52 @@ func (w *c05tWorld) run(steps []c05tStep) {
 		opsBefore := w.obj.OpCount()
 		var r c05tResult
 		parkedNow := false
-		if reopenRace {
+		if joinOpen {
+			done := make(chan c05tResult, 1)
+			go func(b *c05tBroker, s c05tStep, k int) { done <- w.request(b, s, k) }(b, s, k)
+			finished := false
+			deadline := time.Now().Add(5 * time.Second)
+			for !finished && !b.owns(s.P) && time.Now().Before(deadline) {
+				select {
+				case r = <-done:
+					finished = true
+				case <-time.After(200 * time.Microsecond):
+				}
+			}
+			if !finished {
+				// lease acquired (or nothing happens): the open goes on, the produce follows
+				w.nontrivial = true
+				w.releaseHold(b, "a produce of the broker has acquired the lease and waits for the open")
+				select {
+				case r = <-done:
+				case <-time.After(120 * time.Second):
+					w.harnessErr = fmt.Errorf("%w: request %s did not finish", errC19Inconclusive, s)
+				}
+			}
+			if w.harnessErr != nil {
+				break
+			}
+		} else if s.Ls > 0 {
+			pc, rc := b.s3.armList()
+			done := make(chan c05tResult, 1)
+			go func(b *c05tBroker, s c05tStep, k int) { done <- w.request(b, s, k) }(b, s, k)
+			select {
+			case r = <-done:
+				b.s3.disarm()
+				w.cfg.Class("listing-stall-armed-but-no-open-in-request")
+			case held := <-pc:
+				parkedNow = true
+				b.parked = &c05tParked{Step: s, StepNo: k, Cached: cachedBefore, Until: k + 1 + s.Ls, Held: held, List: true, done: done, release: rc}
+				w.cfg.Class("open-stalled-at-s3-listing-" + map[bool]string{true: "owner", false: "non-owner"}[b.owns(s.P)])
+				w.trace = append(w.trace, fmt.Sprintf("%s -> partition open stalled at the S3 listing", s))
+				w.fp = append(w.fp, fmt.Sprintf("%s%d:p%d:liststalled", s.Op, b.idx, s.P))
+			case <-time.After(120 * time.Second):
+				w.harnessErr = fmt.Errorf("%w: request %s neither finished nor reached the listing", errC19Inconclusive, s)
+			}
+			if w.harnessErr != nil {
+				break
+			}
+		} else if reopenRace {
 			// runs next to the stalled request; if it waits for it (a tree that fences the old log),
 			// the stalled upload is let go after a grace period - any order is a legal schedule
 			done := make(chan c05tResult, 1)
@@ -898,18 +1071,23 @@ func (w *c05tWorld) run(steps []c05tStep) {
 			if w.harnessErr != nil {
 				break
 			}
-		} else if s.Hold > 0 {
+		} else if s.Hold > 0 || s.Tx > 0 {
 			pc, rc := b.gate.arm()
+			if s.Tx > 0 {
+				pc, rc = b.kv.arm()
+				b.gate.disarm()
+			}
 			done := make(chan c05tResult, 1)
 			go func(b *c05tBroker, s c05tStep, k int) { done <- w.request(b, s, k) }(b, s, k)
 			select {
 			case r = <-done:
 				b.gate.disarm()
+				b.kv.disarm()
 				w.cfg.Class("hold-armed-but-no-UpdateOffsets-in-request")
 			case held := <-pc:
 				parkedNow = true
 				// the sync of getPartitionLog comes before the request uploads anything
-				b.parked = &c05tParked{Step: s, StepNo: k, Cached: cachedBefore, Until: k + 1 + s.Hold, Held: held, OpenSync: !cachedBefore && !w.segmentsWritten(opsBefore, s.P), done: done, release: rc}
+				b.parked = &c05tParked{Step: s, StepNo: k, Cached: cachedBefore, Until: k + 1 + s.Hold + s.Tx, Held: held, OpenSync: !cachedBefore && !w.segmentsWritten(opsBefore, s.P), done: done, release: rc}
 				if b.parked.OpenSync {
 					w.cfg.Class("held-write-is-open-sync-" + map[bool]string{true: "of-owner", false: "of-non-owner"}[b.owns(held.P)])
 				} else {
@@ -1024,6 +1202,14 @@ func c05tDrawSteps(rt *rapid.T) (int, []c05tStep) {
 	hold := func(s *c05tStep) {
 		if rapid.IntRange(0, 3).Draw(rt, "holdThis") == 0 {
 			s.Hold = rapid.IntRange(1, 4).Draw(rt, "holdSteps")
+			if rapid.IntRange(0, 2).Draw(rt, "holdAtTxn") == 0 {
+				s.Hold, s.Tx = 0, s.Hold
+			}
+		}
+	}
+	stallList := func(s *c05tStep) {
+		if s.Hold == 0 && s.Up == 0 && s.Tx == 0 && rapid.IntRange(0, 5).Draw(rt, "stallListing") == 0 {
+			s.Ls = rapid.IntRange(1, 4).Draw(rt, "listSteps")
 		}
 	}
 	touch := func(p int32) c05tStep {
@@ -1035,12 +1221,25 @@ func c05tDrawSteps(rt *rapid.T) (int, []c05tStep) {
 	}
 	for len(steps) < n {
 		op := rapid.SampledFrom([]string{"produce", "produce", "produce", "produce", "produce", "produce", "fetch", "fetch", "list-earliest", "list-latest",
-			"release", "shutdown", "expire", "handover", "handover", "overtake", "stall", "reader"}).Draw(rt, "op")
+			"release", "shutdown", "expire", "handover", "handover", "overtake", "stall", "reader", "joinopen"}).Draw(rt, "op")
 		p := int32(rapid.IntRange(0, nparts-1).Draw(rt, "partition"))
+		if op == "joinopen" && len(steps)+4 > n {
+			op = "handover"
+		}
 		if (op == "handover" || op == "overtake" || op == "stall" || op == "reader") && len(steps)+3 > n {
 			op = "produce"
 		}
 		switch op {
+		case "joinopen":
+			// the other broker starts opening the partition for a read and its S3 listing is slow;
+			// the owner goes on, then gives the lease up; the next produce reaches the other broker
+			// while its open is still in flight
+			t := touch(p)
+			t.Who, t.Ls = "other", rapid.IntRange(3, 4).Draw(rt, "listSteps")
+			pr1 := c05tStep{Op: "produce", P: p, Who: "owner", N: rapid.IntRange(1, 3).Draw(rt, "records")}
+			mv := c05tStep{Op: rapid.SampledFrom([]string{"release", "shutdown", "expire"}).Draw(rt, "move"), P: p, Who: "owner"}
+			pr2 := c05tStep{Op: "produce", P: p, Who: "other", N: rapid.IntRange(1, 3).Draw(rt, "records")}
+			steps = append(steps, t, pr1, mv, pr2)
 		case "reader":
 			// a consumer stays connected to the broker that does not own the partition
 			f1 := c05tStep{Op: "fetch", P: p, Who: "other", Off: int64(rapid.IntRange(0, 3).Draw(rt, "offset"))}
@@ -1092,6 +1291,7 @@ func c05tDrawSteps(rt *rapid.T) (int, []c05tStep) {
 			who(&s, []string{"b1", "b2", "owner", "other", "other"})
 			if op != "list-latest" {
 				hold(&s)
+				stallList(&s)
 			}
 			steps = append(steps, s)
 		default:
